@@ -242,7 +242,7 @@ def c01(scn, x):
                     residue = _residue_signature(scn, x, e, m)
                     # was the state there earlier in this run and removed by the traversal's own cleanup (not recreated since)?
                     cleaned = next((u for u in reversed(x.trace[:x.trace.index(e)]) if u["k"] == "door" and u["do"] == "unset"
-                                    and any(it[0] == suffix and it[2] == state for it in u["items"]) and _reach(scn, e["w"], u["w"])), None)
+                                    and any(it[0] == suffix and it[2] == state for it in u["items"]) and _same_scope(scn, e["w"], u["w"])), None)
                     if cleaned is not None and residue is None:
                         scopes = str(scn.params.get("pool_scope", "own swarm cluster shared")).split()
                         residue = {"clause": "missing-after-cleanup", "lazy": bool(scn.lazy), "cross_worker": cleaned["w"] != e["w"],
@@ -364,6 +364,16 @@ def _reach(scn, user, holder):
     return ("swarm" in scopes) if su == sh else ("cluster" in scopes)
 
 
+def _same_scope(scn, a, b):
+    """Do workers a and b belong to one reuse scope (the whole run; one swarm or one worker when the pool scope is narrowed)?"""
+    scopes = str(scn.params.get("pool_scope", "own swarm cluster shared")).split()
+    if a == b or ("swarm" in scopes and "cluster" in scopes):
+        return True
+    sa = a.split(".")[0] if "." in a else "localhost"
+    sb = b.split(".")[0] if "." in b else "localhost"
+    return "swarm" in scopes and sa == sb
+
+
 def _holders(scn, tr, upto, suffix, state):
     """Pools holding the state after the first `upto` events of the trace: 'shared' and/or worker ids (their own pools)."""
     h = set()
@@ -418,9 +428,8 @@ def c05(scn, x):
                 elif u["k"] == "end":
                     running.pop(u["seq"], None)
             for u in running.values():
-                # the copy in the remover's own pool goes: it matters to a dependant that could use it and is left with no other copy
-                if any(g[0] == suffix and g[2] == state for g in u["gets"]) and _reach(scn, u["w"], e["w"]) \
-                        and not _available(scn, u["w"], _holders(scn, tr, idx + 1, suffix, state)):
+                # a removal concerns the dependants within the remover's reuse scope (workers of other scopes keep their own setup)
+                if any(g[0] == suffix and g[2] == state for g in u["gets"]) and _same_scope(scn, u["w"], e["w"]):
                     out.append({"what": f"state {state} of {suffix} removed by {e['w']} at t={e['t']} while dependant {u['short']} is running on {u['w']}",
                                 "signature": {"clause": "removed-while-running", "state": state}})
             scopes = str(scn.params.get("pool_scope", "own swarm cluster shared")).split()
@@ -439,9 +448,8 @@ def c05(scn, x):
                     st = next(s for s in tr if s["k"] == "start" and s["seq"] == u["seq"])
                     if any(g[0] == suffix and g[2] == state for g in st["sets"]):
                         recreated_by.append(u["w"])
-                elif u["k"] == "start" and reach(u["w"], e["w"]) and not any(reach(u["w"], c) for c in recreated_by):
-                    if any(g[0] == suffix and g[2] == state for g in u["gets"]) \
-                            and not _available(scn, u["w"], _holders(scn, tr, tr.index(u), suffix, state)):
+                elif u["k"] == "start" and _same_scope(scn, u["w"], e["w"]) and not any(reach(u["w"], c) for c in recreated_by):
+                    if any(g[0] == suffix and g[2] == state for g in u["gets"]):
                         # had the dependant's worker already taken part in the producer (examined or executed it) when the state was removed?
                         involved = any(v["k"] in ("start", "door") and v["w"] == u["w"] and v.get("ident") == e.get("ident") for v in tr[:idx])
                         out.append({"what": f"state {state} of {suffix} removed by {e['w']} at t={e['t']} but dependant {u['short']} "
